@@ -784,7 +784,7 @@ def replay_spelled(ctx, pc, results, quick, found, cache, world3):
         try:
             for ci, (hist, it, fs, esc, modelled) in enumerate(cases):
                 linkreq = hist[-1][0] in ('symlink', 'link')
-                if quick or not linkreq:
+                if quick or not linkreq or len(hist) > 2:
                     if ci % len(forms) != fi:
                         continue        # round robin
                 script = [conv_req(x) for x in hist]
